@@ -1,7 +1,7 @@
 ID = 'C03'
 GROUPS = ['common', 'plugin_api']
 CXX_SOURCES = ['olad/OlaServerServiceImpl.cpp', 'olad/PluginManager.cpp', 'olad/ClientBroker.cpp']
-MAX_OPS = 48
+MAX_OPS = 100
 
 def gen_consts(v):
     import os
@@ -57,7 +57,7 @@ RULE = ('histories of patch/unpatch/set-priority/GC/client add+remove/port data/
         'every branch of GenericPatchPort / GenericUnPatchPort (same universe, loop refusal, multi-port refusal, veto '
         'on a fresh port, veto on a patched port + GC + use, refused un-patch + GC + use, null port), of '
         'SetPriorityStatic (199/200/201/255, uint8 wrap), of RestorePortSettings (restore vetoed / refused by policy), '
-        'unregister+stop+GC+re-register, RegisterForDmx(UNREGISTER) on a missing universe, the input and output port with the same port id (ids are per device and direction, as on real devices) to one universe under each policy, a universe going idle twice between collections, RDM discoveries started on patch that complete after re-patch / unpatch / GC / device stop, DMX frames (UpdateDmxData) interleaved with housekeeping runs (GC + CleanStaleSourceClients) where a sending source client is the only referrer; state compared after '
+        'unregister+stop+GC+re-register, RegisterForDmx(UNREGISTER) on a missing universe, the input and output port with the same port id (ids are per device and direction, as on real devices) to one universe under each policy, a universe going idle twice between collections, Device::AddPort with an id already in use, Start/Stop twice and DeleteAllPorts with patched ports, scale sweeps (15/16/17/32/33/40 ports or universes going idle between two collections), RDM discoveries started on patch that complete after re-patch / unpatch / GC / device stop, DMX frames (UpdateDmxData) interleaved with housekeeping runs (GC + CleanStaleSourceClients) where a sending source client is the only referrer; state compared after '
         'every op; non-trivial = at least one successful patch and one later state-changing op; distinct = distinct '
         'model output trace')
 ASSUMPTIONS = ['PreSetUniverse(old, new) is a function of the port, the number of the new universe (or NULL) and the '
@@ -81,7 +81,7 @@ TRUSTED = ['modelled rather than verified: PortManager.cpp (GenericPatchPort wit
            '(replicated in the harness; RDM discovery scheduling not modelled)',
            'the sibling view handed to the veto function is computed eagerly in the model (the code evaluates the '
            'hook only when SetUniverse is reached); device aliases and time-code port set not modelled',
-           'modelled since wave 6: BasicOutputPort::SetUniverse discovery-on-patch with deferred completion (UpdateUIDs), Universe::NewUIDList and the uid erase of GenericRemovePort (as pruning after each op), observed through Universe::SendRDMRequest; a deleted port drops its pending completions (mock destructor), RDM request completions through PortBroker::RequestComplete not modelled', 'not modelled: full/periodic RDM discovery (RunRDMDiscovery), PortBroker RDM request routing, export-map counters, '
+           'wave 7: Device::AddPort with an id already in use (ignored), Device::Start, Device::DeleteAllPorts called directly; scale sweeps up to 40 ports / universes (the model and theorems are unbounded)', 'modelled since wave 6: BasicOutputPort::SetUniverse discovery-on-patch with deferred completion (UpdateUIDs), Universe::NewUIDList and the uid erase of GenericRemovePort (as pruning after each op), observed through Universe::SendRDMRequest; a deleted port drops its pending completions (mock destructor), RDM request completions through PortBroker::RequestComplete not modelled', 'not modelled: full/periodic RDM discovery (RunRDMDiscovery), PortBroker RDM request routing, export-map counters, '
            'DMX merging (C01), file format / parsing of the preferences (C18), content of the saved universe settings',
            'the PortBroker and port-preference observables (b<k>, f<k>) and the GC candidate set (c<k>) are compared '
            'as internal keys: the property text does not mention them',
@@ -145,6 +145,7 @@ def rand_op(rng, devs, ports, pool):
     if r < 0.40: return 'P.%d.%d' % (p, n)
     if r < 0.50: return 'U.%d' % p
     if r < 0.60: return 'G'
+    if r < 0.615: return rng.choice(['A.%d' % p, 'A.%d' % p, 'ST.%d' % rng.randrange(len(devs) + 1), 'DA.%d' % rng.randrange(len(devs) + 1)])
     if r < 0.63: return 'R.%d' % rng.randrange(len(devs) + 1)
     if r < 0.655: return 'N.%d' % rng.randrange(len(devs) + 1)
     if r < 0.67: return rng.choice(['NA', 'RA.%d.%d' % (n, c), 'RU.%d.%d' % (n, c), 'RU.%d.%d' % (n, c),
@@ -164,7 +165,7 @@ def rand_op(rng, devs, ports, pool):
 
 def directed(rng, devs, ports, pool):
     """prefixes aimed at the branches of GenericPatchPort"""
-    kind = rng.randrange(24)
+    kind = rng.randrange(28)
     np_ = len(ports)
     ops = []
     if kind == 0:
@@ -249,6 +250,44 @@ def directed(rng, devs, ports, pool):
         a, b = rng.sample(pool, 2)
         ops = ['P.%d.%d' % (k, a), 'P.%d.%d' % (p, a), 'P.%d.%d' % (p, b), 'P.%d.%d' % (p, a), 'G',
                'U.%d' % k, 'P.%d.%d' % (p, a), 'G']
+    elif kind == 24:
+        # Device::AddPort with a new object re-using the id of a port that is already patched: ignored
+        d = rng.randrange(len(devs))
+        p = rng.randrange(np_)
+        ports[p][0] = d; ports[p][3] = []; ports[p][4] = '-'
+        a, b = rng.sample(pool, 2)
+        ops = ['P.%d.%d' % (p, a), 'A.%d' % p, 'G', rng.choice(['D.%d' % p, 'U.%d' % p, 'P.%d.%d' % (p, b), 'A.%d' % p]),
+               'G', 'A.%d' % p, 'X.%d' % d, 'A.%d' % p, 'G']
+    elif kind == 25:
+        # Start / Stop twice and DeleteAllPorts with patched ports
+        d = rng.randrange(len(devs))
+        mine = [i for i in range(np_) if ports[i][0] == d]
+        ops = ['ST.%d' % d] + ['P.%d.%d' % (i, rng.choice(pool)) for i in mine]
+        ops += [rng.choice(['DA.%d' % d, 'X.%d' % d]), 'ST.%d' % d, 'G', rng.choice(['DA.%d' % d, 'X.%d' % d]),
+                'X.%d' % d, 'ST.%d' % d] + ['P.%d.%d' % (i, rng.choice(pool)) for i in mine[:2]] + ['G']
+    elif kind in (26, 27):
+        # scale: tens of ports / universes go idle between two collections; every one must be collected
+        n = rng.choice([15, 16, 17, 17, 32, 33, 40])
+        if kind == 26:
+            devs[:] = [3]
+            ports[:] = []
+            for i in range(n):
+                inp = rng.random() < 0.5
+                ports.append([0, inp, (rng.choice([1, 2]) if inp else rng.choice([0, 2])), [], '-',
+                              str(100 + i), '-', '-', rng.choice(['-', '-', 'd'])])
+            how = rng.randrange(4)
+            if how == 0:
+                ops = ['R.0', 'G', 'X.0', 'G', 'G']
+            elif how == 1:
+                ops = ['R.0', 'N.0', 'DA.0', 'G', 'G']
+            elif how == 2:
+                ops = ['R.0'] + ['U.%d' % i for i in range(n)] + ['G', 'G']
+            else:
+                ops = ['P.%d.%d' % (i, 100 + i) for i in range(n)] + ['X.0', 'H', 'H']
+        else:
+            cl = rng.randrange(3)
+            ops = ['RA.%d.%d' % (200 + i, cl) for i in range(n)] + ['G'] + \
+                  ['%s.%d.%d' % (rng.choice(['RU', 'KR']), 200 + i, cl) for i in range(n)] + ['G', 'G']
     elif kind in (20, 21, 22, 23):
         # deferred completions: a discovery started by a patch completes after the port was re-patched /
         # unpatched / its old universe collected / its device stopped; it may only touch the universe
